@@ -4,6 +4,7 @@ package props
 
 import (
 	"encoding/json"
+	"runtime"
 	"fmt"
 	"os"
 	"sort"
@@ -45,6 +46,8 @@ type Prop struct {
 
 var Registry = map[string]*Prop{}
 
+var watchdogSecs = 120
+
 func register(p *Prop) { Registry[p.ID] = p }
 
 // RunOnce executes property p with the given tape.
@@ -59,6 +62,16 @@ func RunOnce(t *testing.T, p *Prop, seed uint64, tape *simkit.Tape, tier string,
 		env.S.MaxTime = p.MaxTime
 	}
 	res := &RunResult{Seed: seed}
+	// real-time watchdog (armed outside the bubble, so it is a real timer): a run
+	// that does not finish is harness trouble (exit 3), never a violation.
+	wd := time.AfterFunc(time.Duration(watchdogSecs)*time.Second, func() {
+		fmt.Fprintf(os.Stderr, "WATCHDOG: property %s seed %d did not finish within %ds of real time\n", p.ID, seed, watchdogSecs)
+		buf := make([]byte, 1<<20)
+		n := runtime.Stack(buf, true)
+		os.Stderr.Write(buf[:n])
+		os.Exit(3)
+	})
+	defer wd.Stop()
 	var nontriv bool
 	var sample any
 	func() {
